@@ -327,7 +327,7 @@ def velgrad(spec):
         L = D + W
     elif fam == "spin":
         # rigid-body rotation: zero strain rate, non-zero vorticity
-        w = np.asarray(spec["w"], dtype=float)
+        w = _flush(np.asarray(spec["w"], dtype=float))  # denormal spins are outside the stated domain
         if not np.any(w):
             w = np.array([0.0, 0.0, 1.0])
         L = np.array([[0, -w[2], w[1]], [w[2], 0, -w[0]], [-w[1], w[0], 0]])
